@@ -1,5 +1,5 @@
 (* C18 — proofs. *)
-Require Import V.Lib V.GoPath V.C18_Model.
+Require Import V.Lib V.GoPath V.Gen_C18 V.C18_Model.
 Open Scope N_scope.
 Local Open Scope string_scope.
 
@@ -652,6 +652,33 @@ Proof.
   - exact Hin.
 Qed.
 
+(* every coding the file server can emit is on the skip list of the gzip layer (tables of the
+   current sources, Gen_C18.v) *)
+Lemma prio_in_skip c : In c (map fst gen_c18_static_priority) -> In c gen_c18_skip.
+Proof.
+  assert (H : forallb (fun c => existsb (beq c) gen_c18_skip) (map fst gen_c18_static_priority) = true)
+    by (vm_compute; reflexivity).
+  intros Hin. apply existsb_beq_In. exact (proj1 (forallb_forall _ _) H c Hin).
+Qed.
+
+Lemma not_double_encoded_fileserver_codings dexts cs cfgs path ae s c :
+  wb s = true -> r_ce (run_plain s) = [c] -> In c (map fst gen_c18_static_priority) ->
+  gzip_serve gen_c18_skip dexts cs cfgs path ae s = run_plain s.
+Proof.
+  intros Hwb Hc Hin. exact (not_double_encoded gen_c18_skip dexts cs cfgs path ae s c Hwb Hc (prio_in_skip c Hin)).
+Qed.
+
+Lemma static_sibling_not_reencoded_full dexts cs cfgs path ae head data sibs name ext :
+  select_sibling gen_c18_static_priority ae
+    (fun e => match sib_data sibs e with Some _ => true | None => false end) = Some (name, ext) ->
+  gzip_serve gen_c18_skip dexts cs cfgs path ae (static_script gen_c18_static_priority head ae data sibs) =
+  run_plain (static_script gen_c18_static_priority head ae data sibs).
+Proof.
+  intros Hsel. apply (static_sibling_not_reencoded _ _ _ _ _ _ _ _ _ _ name ext Hsel).
+  apply prio_in_skip. destruct (select_sibling_sound _ _ _ _ _ Hsel) as (_ & _ & l1 & l2 & E & _).
+  rewrite E, map_app. apply in_or_app. right. left. reflexivity.
+Qed.
+
 Lemma static_plain_transparent sl dexts prio gz gunzip :
   (forall ws, gunzip (gz ws) = Some (concat ws)) ->
   forall cs cfgs path ae head data sibs,
@@ -671,22 +698,6 @@ Qed.
 
 Definition bare : gcfg := {| c_exts := []; c_not := []; c_min := 0 |}.
 Definition dexts_min : list bytes := [[]; bs ".txt"].
-
-Lemma zstd_double_encoded_witness :
-  let s := [OSet K_CE (bs "zstd"); OWrite [1; 2; 3]] in
-  let ae := bs "zstd, gzip" in
-  let out := gzip_serve skip_snapshot dexts_min false [bare] (bs "/x") ae s in
-  wb s = true /\ r_ce (run_plain s) = [bs "zstd"] /\ In (bs "zstd") (map fst priority_snapshot) /\
-  applied out = [GZIP] /\ r_ce out = [GZIP].
-Proof. vm_compute. repeat split; auto. Qed.
-
-Lemma zstd_not_transparent gz gunzip :
-  let s := [OSet K_CE (bs "zstd"); OWrite [1; 2; 3]] in
-  ~ transparent gz gunzip false
-      (gzip_serve skip_snapshot dexts_min false [bare] (bs "/x") (bs "zstd, gzip") s) (run_plain s).
-Proof.
-  intros s (_ & [(Hce & _) | (Hce & _)]); vm_compute in Hce; discriminate.
-Qed.
 
 Lemma flush_first_witness :
   let s := [OFlush; OWrite [1; 2; 3]] in
@@ -708,17 +719,6 @@ Lemma q0_witness :
   let ae := bs "gzip;q=0" in
   offers_gzip ae = false /\ wb s = true /\
   applied (gzip_serve skip_snapshot dexts_min false [bare] (bs "/x") ae s) = [GZIP].
-Proof. vm_compute. repeat split; reflexivity. Qed.
-
-Lemma static_zstd_witness :
-  let sibs := [(bs ".zst", [40; 181; 47; 253])] in
-  let ae := bs "zstd, gzip" in
-  let s := static_script priority_snapshot false ae [100; 97; 116; 97] sibs in
-  select_sibling priority_snapshot ae (fun e => match sib_data sibs e with Some _ => true | None => false end)
-    = Some (bs "zstd", bs ".zst") /\
-  r_ce (run_plain s) = [bs "zstd"] /\
-  applied (gzip_serve skip_snapshot dexts_min false [bare] (bs "/f.txt") ae s) = [GZIP] /\
-  r_ce (gzip_serve skip_snapshot dexts_min false [bare] (bs "/f.txt") ae s) = [GZIP].
 Proof. vm_compute. repeat split; reflexivity. Qed.
 
 (* Content-Length of static responses: FormatInt of the number of bytes sent, or dropped *)
